@@ -81,7 +81,7 @@ Proof.
   - apply IH; assumption.
 Qed.
 
-(** ** references are looked up when nodes are built *)
+(** ** the checks made when the nodes are built pass on well-formed tables, and so do the specification's *)
 Lemma predefined_agree n : (match m_predefined n with Some _ => true | None => false end)
                          = (match predefined n with Some _ => true | None => false end).
 Proof.
@@ -91,25 +91,124 @@ Proof.
   destruct (str_eqb n n_quot); reflexivity.
 Qed.
 
-Lemma refs_found_resolve ents lit : m_refs_found ents lit = refs_resolve ents lit.
-Proof.
-  unfold m_refs_found, refs_resolve. induction lit as [|p r IH]; [reflexivity|].
-  destruct p as [s|c|n]; cbn [forallb refs_of flat_map app]; try exact IH.
-  unfold refs_of in IH. rewrite IH. f_equal.
-  unfold context_entity. rewrite find_entity_declared.
-  destruct (declared ents n); [reflexivity|]. pose proof (predefined_agree n) as H.
-  destruct (m_predefined n), (predefined n); try reflexivity; discriminate.
-Qed.
-
 Lemma forallb_ext {A} (f g : A -> bool) l : (forall a, f a = g a) -> forallb f l = forallb g l.
 Proof. intros H. induction l as [|x r IH]; [reflexivity|]. cbn [forallb]. rewrite H, IH. reflexivity. Qed.
 
-Lemma doctype_ok d : forall seen, m_doctype_ok seen d = defaults_ok seen d.
+Lemma no_lt_text (s : str) : forallb (fun c => negb (markup_char c)) s = true -> existsb (fun c => c =? 60) s = false.
 Proof.
-  induction d as [|x r IH]; intros seen; [reflexivity|].
-  destruct x as [n lit|e defs]; cbn [m_doctype_ok defaults_ok]; [apply IH|].
-  rewrite IH. f_equal. apply forallb_ext. intros a. destruct (ad_default a); try reflexivity.
-  apply refs_found_resolve.
+  induction s as [|c r IH]; intros H; [reflexivity|]. cbn [forallb existsb] in *.
+  apply andb_prop in H as [Hc Hr]. unfold markup_char in Hc. apply negb_true_iff, orb_false_iff in Hc as [_ H60].
+  rewrite H60, IH by exact Hr. reflexivity.
+Qed.
+
+Lemma check_loop_ok (rec : name -> ares unit) (vals : list piece) :
+  forallb simple_piece vals = true -> (forall m, In m (refs_of vals) -> rec m = Ok tt) -> check_loop rec vals = Ok tt.
+Proof.
+  induction vals as [|p r IH]; intros Hs Hr; [reflexivity|].
+  cbn [forallb] in Hs. apply andb_prop in Hs as [Hp Hs]. destruct p as [s|c|v]; cbn [check_loop simple_piece] in *.
+  - rewrite (no_lt_text s Hp). apply IH; [exact Hs|exact Hr].
+  - unfold markup_char in Hp. apply negb_true_iff, orb_false_iff in Hp as [_ H60]. rewrite H60.
+    apply IH; [exact Hs|exact Hr].
+  - rewrite (Hr v) by (cbn [refs_of flat_map app]; left; reflexivity). cbn [bind].
+    apply IH; [exact Hs|]. intros m Hm. apply Hr. cbn [refs_of flat_map app]. right. exact Hm.
+Qed.
+
+Lemma check_entity_ok (T : table) : wf_table T ->
+  forall fuel n visiting,
+    (declared T n <> None \/ predefined n <> None) ->
+    NoDup visiting ->
+    (forall p, In p visiting -> declared T p <> None /\ reaches T p n) ->
+    (length visiting + fuel > length T)%nat ->
+    check_entity_ref fuel T visiting n = Ok tt.
+Proof.
+  intros Hwf. induction fuel as [|f IH]; intros n visiting Hn Hnd Hv Hlen.
+  - exfalso. assert (Hincl : incl visiting (map fst T)).
+    { intros p Hp. apply declared_name_in. apply (Hv p Hp). }
+    pose proof (NoDup_incl_length Hnd Hincl) as Hle. rewrite map_length in Hle. lia.
+  - cbn [check_entity_ref]. rewrite find_entity_declared.
+    destruct (declared T n) as [lit|] eqn:E.
+    + destruct (existsb (str_eqb n) visiting) eqn:Ex.
+      { exfalso. apply existsb_str_in in Ex. exact (wf_acyclic T Hwf n (proj2 (Hv n Ex))). }
+      pose proof (declared_in _ _ _ E) as Hin.
+      apply check_loop_ok; [exact (wf_simple T Hwf n lit Hin)|]. intros m Hm.
+      assert (Hnm : refers T n m) by (exists lit; auto).
+      apply IH.
+      * exact (wf_declared T Hwf n lit m Hin Hm).
+      * apply nodup_snoc; [exact Hnd|]. intros Hp. exact (wf_acyclic T Hwf n (proj2 (Hv n Hp))).
+      * intros p Hp. apply in_app_or in Hp as [Hp|[<-|[]]].
+        -- destruct (Hv p Hp) as [Hd Hr]. split; [exact Hd|]. eapply reaches_snoc; eauto.
+        -- split; [congruence|apply reach_step; exact Hnm].
+      * rewrite app_length. cbn [length]. lia.
+    + destruct Hn as [Hn|Hn]; [congruence|]. pose proof (predefined_agree n) as Ha.
+      destruct (m_predefined n); [reflexivity|]. destruct (predefined n); [discriminate|congruence].
+Qed.
+
+Lemma refs_found_ok (T : table) lit : wf_table T -> lit_declared T lit -> m_refs_found T lit = true.
+Proof.
+  intros Hwf Hl. unfold m_refs_found. apply forallb_forall. intros p Hp. destruct p as [s|c|n]; try reflexivity.
+  rewrite (check_entity_ok T Hwf (S (length T)) n []); [reflexivity| |constructor|intros q []|cbn [length]; lia].
+  apply Hl. apply in_flat_map. exists (EntRef n). split; [exact Hp|left; reflexivity].
+Qed.
+
+Lemma lit_expands_ok (T : table) lit : wf_table T -> lit_declared T lit -> lit_expands T lit = true.
+Proof.
+  intros Hwf Hl. unfold lit_expands. destruct (fuel_suffices_proof T None lit Hwf Hl) as [s Hs].
+  unfold spec_value, spec_value_f in Hs. apply bind_ok in Hs as (v & Hv & _). rewrite Hv. reflexivity.
+Qed.
+
+(** the documents the refinement theorem speaks about: the general entities are declared before the
+    attribute-list declarations, the entity table is well-formed, every literal refers to declared entities *)
+Definition is_attlist (x : decl) : bool := match x with DAttlist _ _ => true | DEntity _ _ => false end.
+Fixpoint entities_first (d : dtd_doc) : bool :=
+  match d with
+  | [] => true
+  | DEntity _ _ :: r => entities_first r
+  | DAttlist _ _ :: r => forallb is_attlist r
+  end.
+Definition default_lits (d : dtd_doc) : list (list piece) :=
+  flat_map (fun x => match x with
+                     | DAttlist _ defs => flat_map (fun a => match ad_default a with Default _ lit => [lit] | _ => [] end) defs
+                     | DEntity _ _ => [] end) d.
+Record doc_wf (d : dtd_doc) (written : list (name * list piece)) : Prop := {
+  dw_first : entities_first d = true;
+  dw_table : wf_table (entities_of d);
+  dw_defaults : forall lit, In lit (default_lits d) -> lit_declared (entities_of d) lit;
+  dw_written : forall nl, In nl written -> lit_declared (entities_of d) (snd nl)
+}.
+
+Lemma attlists_no_entities r : forallb is_attlist r = true -> entities_of r = [].
+Proof.
+  induction r as [|x r IH]; intros H; [reflexivity|]. cbn [forallb] in H. apply andb_prop in H as [Hx Hr].
+  destruct x; [discriminate|]. cbn [entities_of]. auto.
+Qed.
+
+Lemma attlists_checks (T : table) r : wf_table T -> forallb is_attlist r = true ->
+  (forall lit, In lit (default_lits r) -> lit_declared T lit) ->
+  defaults_ok T r = true /\ m_doctype_ok T r = true.
+Proof.
+  intros Hwf. induction r as [|x r IH]; intros Hr Hl; [split; reflexivity|].
+  cbn [forallb] in Hr. apply andb_prop in Hr as [Hx Hr]. destruct x as [|e defs]; [discriminate|].
+  destruct IH as [IH1 IH2]; [exact Hr| |].
+  { intros lit Hin. apply Hl. cbn [default_lits flat_map]. apply in_or_app. right. exact Hin. }
+  cbn [defaults_ok m_doctype_ok]. rewrite IH1, IH2, !andb_true_r.
+  split; apply forallb_forall; intros a Ha; destruct (ad_default a) as [| |fx lit] eqn:Ed; try reflexivity.
+  - apply lit_expands_ok; [exact Hwf|]. apply Hl. cbn [default_lits flat_map]. apply in_or_app. left.
+    apply in_flat_map. exists a. split; [exact Ha|]. rewrite Ed. left. reflexivity.
+  - apply refs_found_ok; [exact Hwf|]. apply Hl. cbn [default_lits flat_map]. apply in_or_app. left.
+    apply in_flat_map. exists a. split; [exact Ha|]. rewrite Ed. left. reflexivity.
+Qed.
+
+Lemma doctype_checks d : forall seen, entities_first d = true -> wf_table (seen ++ entities_of d) ->
+  (forall lit, In lit (default_lits d) -> lit_declared (seen ++ entities_of d) lit) ->
+  defaults_ok seen d = true /\ m_doctype_ok seen d = true.
+Proof.
+  induction d as [|x r IH]; intros seen Hf Hwf Hl; [split; reflexivity|].
+  destruct x as [n lit|e defs].
+  - cbn [defaults_ok m_doctype_ok entities_first entities_of default_lits flat_map app] in *.
+    apply IH; [exact Hf| |]; rewrite <- app_assoc; cbn [app]; assumption.
+  - cbn [entities_first] in Hf. pose proof (attlists_no_entities r Hf) as Hno.
+    cbn [entities_of] in *. rewrite Hno, app_nil_r in *.
+    apply (attlists_checks seen (DAttlist e defs :: r)); [exact Hwf|cbn [forallb is_attlist]; exact Hf|exact Hl].
 Qed.
 
 (** ** the defaulting loop *)
@@ -182,17 +281,11 @@ Proof.
 Qed.
 
 (** ** the theorem *)
-Theorem attribute_set_refines_proof : forall d el written,
-  simple_table (entities_of d) -> no_ns_defs d el -> Known36 d el written = false ->
-  model_attrs d el written = map_ares (map of_item) (spec_attrs d el written).
+Lemma rows_refine d el written :
+  simple_table (entities_of d) -> acyclic (entities_of d) -> no_ns_defs d el -> Known36 d el written = false ->
+  map (m_observe d el) (m_attributes_nodes d el written) = map of_item (spec_attrs_items d el written).
 Proof.
-  intros d el written Hs Hns Hk. unfold model_attrs, spec_attrs.
-  rewrite doctype_ok.
-  replace (forallb (fun nl => m_refs_found (entities_of d) (snd nl)) written)
-     with (forallb (fun nl => refs_resolve (entities_of d) (snd nl)) written)
-     by (apply forallb_ext; intros a; symmetry; apply refs_found_resolve).
-  destruct (defaults_ok [] d && forallb (fun nl => refs_resolve (entities_of d) (snd nl)) written); [|reflexivity].
-  cbn [map_ares bind]. f_equal.
+  intros Hs Hac Hns Hk.
   unfold m_attributes_nodes, spec_attrs_items. rewrite att_defs_merged. fold (defs_for d el).
   set (defs := defs_for d el) in *.
   set (base := map (fun nl => {| mn_name := fst nl; mn_vals := snd nl; mn_from_dtd := false |})
@@ -205,7 +298,7 @@ Proof.
     unfold m_observe, of_item. cbn [mn_name mn_vals mn_from_dtd ai_name ai_value ai_specified ai_type fst snd negb].
     rewrite att_defs_merged. fold (defs_for d el). fold defs.
     unfold declaration_type, def_of. f_equal.
-    apply (normalized_value_refines_f (entities_of d) Hs).
+    apply (normalized_value_refines_f (entities_of d) Hs Hac).
   - (* defaults *)
     apply map_flat_map_ext. intros x Hx.
     unfold mrow, base. rewrite (written_base written (ad_name x) (Hns x Hx)). fold (is_written written (ad_name x)).
@@ -224,7 +317,21 @@ Proof.
     + cbn [map]. unfold m_observe, of_item.
       cbn [mn_name mn_vals mn_from_dtd ai_name ai_value ai_specified ai_type negb].
       rewrite Hty. f_equal. f_equal.
-      apply (normalized_value_refines_f (entities_of d) Hs).
+      apply (normalized_value_refines_f (entities_of d) Hs Hac).
+Qed.
+
+Theorem attribute_set_refines_proof : forall d el written,
+  doc_wf d written -> no_ns_defs d el -> Known36 d el written = false ->
+  model_attrs d el written = map_ares (map of_item) (spec_attrs d el written).
+Proof.
+  intros d el written [Hf Hwf Hd Hw] Hns Hk. unfold model_attrs, spec_attrs.
+  destruct (doctype_checks d [] Hf Hwf Hd) as [H1 H2]. rewrite H1, H2. cbn [andb].
+  assert (Hw1 : forallb (fun nl => m_refs_found (entities_of d) (snd nl)) written = true).
+  { apply forallb_forall. intros nl Hnl. apply refs_found_ok; [exact Hwf|exact (Hw nl Hnl)]. }
+  assert (Hw2 : forallb (fun nl => lit_expands (entities_of d) (snd nl)) written = true).
+  { apply forallb_forall. intros nl Hnl. apply lit_expands_ok; [exact Hwf|exact (Hw nl Hnl)]. }
+  rewrite Hw1, Hw2. cbn [map_ares bind]. f_equal.
+  apply rows_refine; [apply wf_simple_table; exact Hwf|apply wf_acyclic_table; exact Hwf|exact Hns|exact Hk].
 Qed.
 
 (** both [specified] flags of the model always agree (xml-info and xml-dom, after fix D54) *)
